@@ -56,8 +56,10 @@ func rulesC17(c *Ctx) {
 	R.Rule("R4", "active-keyset refresh writes the mint entry back", 2)
 	R.Rule("R5", "the wallet's fee functions agree with the mint's: one ceil over the summed per-proof ppk of each proof's own keyset (shared with C18.R3)", 2)
 	R.Rule("R6", "the wallet storage hands out whole buckets: bucket readers return every stored entry, writers store every element", 4)
+	R.Rule("R7", "signatures the mint hands back are turned into proofs: every wallet operation that reads change signatures from an answer unblinds them (constructProofs) and saves the result", 2)
 	c.ruleWalletFeeFormula("R5")
 	c.c17StorageTotal()
+	c.c17ChangeNotDropped()
 	c.c17Melt()
 	c.c17Poll()
 	c.c17Others()
@@ -882,5 +884,74 @@ func (c *Ctx) c18KeysetEntriesCarryFee() {
 	}
 	if n == 0 {
 		R.Unresolved("R4", "in-memory keyset entries", "no write of a keyset entry found in the wallet")
+	}
+}
+
+// c17ChangeNotDropped: R7. Change signatures in a melt answer are value the wallet paid for with its
+// inputs. An operation that looks at them must turn them into proofs and store those.
+func (c *Ctx) c17ChangeNotDropped() {
+	R := c.R
+	n := 0
+	for _, f := range c.P.Funcs {
+		if f.Pkg == nil || c.P.Rel(f.Pkg.Pkg.Path()) != "wallet" || f.Parent() != nil {
+			continue
+		}
+		o := c.P.OriginsOf(f)
+		// reads of the Change field of a mint answer (a client call's result)
+		var readSite ssa.Instruction
+		var changeEx *Ex
+		for _, b := range f.Blocks {
+			for _, in := range b.Instrs {
+				var fe *Ex
+				switch x := in.(type) {
+				case *ssa.FieldAddr:
+					if fieldName(x) == "Change" {
+						fe = o.pointee(x)
+					}
+				case *ssa.Field:
+					fe = o.Of(x)
+				}
+				if fe == nil || !isField(fe, "Change") {
+					continue
+				}
+				base := fe.Args[0]
+				if !base.Has(func(x *Ex) bool { return x.K == "call" && strings.HasPrefix(x.S, "wallet/client.") }) {
+					continue
+				}
+				readSite, changeEx = in, fe
+			}
+		}
+		if readSite == nil {
+			continue
+		}
+		n++
+		// some constructProofs call takes those signatures, and its result is saved
+		okU, okS := false, false
+		for _, ci := range Calls(f) {
+			d := c.P.Describe(ci)
+			if d.Name != "wallet.constructProofs" {
+				continue
+			}
+			if o.Of(d.Args[0]).String() == changeEx.String() {
+				okU = true
+				for _, sv := range c.callsOfWalletDB(f, "SaveProofs") {
+					a := o.Of(c.P.Describe(sv).Args[0])
+					if a.K == "call" && a.Call == ci {
+						okS = true
+					}
+				}
+			}
+		}
+		why := ""
+		if !okU {
+			why = "the change signatures of the answer (" + short(changeEx.String(), 100) + ") are looked at but never unblinded into proofs"
+		} else if !okS {
+			why = "the proofs built from the change signatures are not saved"
+		}
+		R.Check("R7", c.P.FuncKey(f), "change signatures become stored proofs", c.P.InstrPos(readSite), okU && okS,
+			"change signatures returned by the mint are unblinded and the resulting proofs saved", why)
+	}
+	if n == 0 {
+		R.Unresolved("R7", "change signatures", "no wallet operation reads change signatures")
 	}
 }
